@@ -616,3 +616,67 @@ pub fn length_sweep(ctx: &Ctx, rep: &mut Report, unit: &mut usize) {
     rep.count("length_sweep_lengths", lengths);
     rep.note(format!("length sweep: every input length 0..={} of 41-bytes and of FE-bytes through one borrowing encode call: output length within len + 1 + 2*ceil(len/64008) and equal to the length the format defines", max_len));
 }
+
+/// Many pieces: inputs fed in 1100 / 1500 pieces (so that the output, left undrained, spans well
+/// over a thousand slices: limits such as IOV_MAX = 1024 live there), borrowed or alternately
+/// borrowed and copied, with a stuff sequence straddling every seventh piece boundary; then the
+/// canonical stream fed back to the decoder in as many pieces.
+pub fn many_pieces(ctx: &Ctx, rep: &mut Report, unit: &mut usize) {
+    let prop = ctx.prop.clone();
+    let mut cases = 0u64;
+    for (count, size) in [(1100usize, 300usize), (1500, 300), (1100, 70), (2100, 1)] {
+        for mix in [0usize, 1] {
+            let u = *unit;
+            *unit += 1;
+            if !ctx.owns(u) {
+                continue;
+            }
+            let mut input: Vec<u8> = Vec::with_capacity(count * size);
+            let mut pieces: Vec<Piece> = Vec::with_capacity(count);
+            for i in 0..count {
+                let lo = input.len();
+                for j in 0..size {
+                    input.push(0x30 + ((i + j) % 64) as u8);
+                }
+                if size >= 2 && i % 7 == 3 {
+                    let n = input.len();
+                    input[n - 1] = 0xFE;
+                }
+                if size >= 2 && i % 7 == 4 {
+                    input[lo] = 0xFD;
+                }
+                let m = if mix == 1 && i % 2 == 1 { M::Copy } else { M::Borrow };
+                pieces.push(Piece { lo, hi: input.len(), m, d: D::None });
+            }
+            cases += 1;
+            rep.evaluations += 1;
+            rep.transitions += count as u64;
+            let mut obs = Obs::default();
+            if let Err(e) = enc_case(&input, &pieces, None, false, &mut obs) {
+                let again = enc_case(&input, &pieces, None, false, &mut Obs::default());
+                record(rep, &prop, &CaseId { side: "enc", limits: None, data: &input, pieces: &pieces, prefill: false }, &e, again.as_ref().err() == Some(&e));
+                continue;
+            }
+            // decoder: the canonical stream in pieces of `size` bytes (at least as many pieces)
+            let stream = stream_for(&input, None);
+            let step = size.max(1);
+            let mut dp: Vec<Piece> = Vec::new();
+            let mut at = 0usize;
+            let mut i = 0usize;
+            while at < stream.len() {
+                let hi = (at + step).min(stream.len());
+                dp.push(Piece { lo: at, hi, m: if mix == 1 && i % 2 == 1 { M::Copy } else { M::Borrow }, d: D::None });
+                at = hi;
+                i += 1;
+            }
+            rep.evaluations += 1;
+            rep.transitions += dp.len() as u64;
+            if let Err(e) = dec_case_expect(&stream, &dp, None, false, &mut obs, Some(&input)) {
+                let again = dec_case_expect(&stream, &dp, None, false, &mut Obs::default(), Some(&input));
+                record(rep, &prop, &CaseId { side: "dec", limits: None, data: &stream, pieces: &dp, prefill: false }, &e, again.as_ref().err() == Some(&e));
+            }
+        }
+    }
+    rep.count("many_piece_cases", cases);
+    rep.note("many pieces: inputs of 1100 x 300, 1500 x 300, 1100 x 70 and 2100 x 1 bytes fed piece by piece (all borrowed, or alternately borrowed and copied), a stuff sequence straddling every seventh piece boundary, nothing drained before finish (output of well over 1024 slices); the canonical stream back through the decoder in as many pieces".to_string());
+}
